@@ -38,15 +38,146 @@ def plan_C05(ctx):
     canary(ctx)
 
 
+def plan_tmp(ctx):
+    import os
+    fams = os.environ.get("FAMS", "iter_walk").split(",")
+    n = int(os.environ.get("N", "100"))
+    for f in fams:
+        run_family(ctx, f, n, perfile=int(os.environ.get("PF", "10")))
+
+
+def plan_C02(ctx):
+    run_family(ctx, "merge_obs", n_of(ctx, 250, 5000), perfile=n_of(ctx, 20, 40))
+    run_family(ctx, "stored_sweep", n_of(ctx, 40, 80), perfile=5, seed_off=1)      # merges read stored fields too
+    run_family(ctx, "iter_big", n_of(ctx, 8, 100), perfile=2, seed_off=2)          # cardinality across 1024 by drops
+    canary(ctx)
+
+
+def plan_C03(ctx):
+    run_family(ctx, "merge_obs", n_of(ctx, 250, 5000), perfile=n_of(ctx, 20, 40), seed_off=3)
+    run_family(ctx, "assoc", n_of(ctx, 40, 600), perfile=10, seed_off=4)
+    canary(ctx)
+
+
+def plan_C04(ctx):
+    run_family(ctx, "roundtrip", n_of(ctx, 150, 3000), perfile=n_of(ctx, 10, 30))
+    run_family(ctx, "merge_obs", n_of(ctx, 120, 2500), perfile=20, seed_off=5)
+    canary(ctx)
+
+
+def plan_C06(ctx):
+    run_family(ctx, "stored_shapes", n_of(ctx, 200, 4000), perfile=n_of(ctx, 20, 40))
+    run_family(ctx, "stored_sweep", n_of(ctx, 80, 400), perfile=5)
+    canary(ctx)
+
+
+def plan_C07(ctx):
+    run_family(ctx, "dv_small", n_of(ctx, 200, 4000), perfile=n_of(ctx, 20, 40))
+    run_family(ctx, "dv_walk", n_of(ctx, 16, 200), perfile=2)
+    canary(ctx)
+
+
+def plan_C08(ctx):
+    run_family(ctx, "dict_ranges", n_of(ctx, 250, 5000), perfile=n_of(ctx, 20, 40))
+    run_family(ctx, "merge_obs", n_of(ctx, 100, 1500), perfile=20, seed_off=6)
+    canary(ctx)
+
+
+def race_pass(ctx, family, n, prop):
+    """free-running goroutines under the Go race detector; reports inside ice are observations"""
+    if not ctx.icex_race:
+        build_harness(ctx, race=True)
+    out = ctx.sub("race-%s" % family)
+    p = run_icex(ctx, ["genrun", family, ctx.seed * 1000 + 77, n, out, max(1, n // 8)], race=True,
+                 env_extra={"GORACE": "halt_on_error=0 exitcode=0"}, timeout=1800)
+    reports = [r for r in p.stderr.split("WARNING: DATA RACE")[1:]]
+    inice = [r for r in reports if "/repo/" in r or "blugelabs/ice" in r]
+    traces = sorted(glob.glob(os.path.join(out, "*.ndjson")))
+    if traces:
+        lines = open(traces[0]).read().splitlines()
+        ev = dict(ev="race_report", prop=prop, n=len(inice), total=len(reports), g=0,
+                  sample=(inice[0][:1500] if inice else ""))
+        lines.insert(len(lines) - 1, json.dumps(ev))
+        with open(traces[0], "w") as f:
+            f.write("\n".join(lines) + "\n")
+    ctx.cov["race_reports_in_ice"] = ctx.cov.get("race_reports_in_ice", 0) + len(inice)
+    ctx.cov["race_pass_scenarios"] = ctx.cov.get("race_pass_scenarios", 0) + n
+    return finish_dir(ctx, out, "race-" + family)
+
+
+def plan_C09(ctx):
+    run_family(ctx, "conc_sched", n_of(ctx, 60, 1500), perfile=n_of(ctx, 10, 30))
+    run_family(ctx, "conc_free", n_of(ctx, 40, 800), perfile=n_of(ctx, 8, 20))
+    race_pass(ctx, "conc_free", n_of(ctx, 24, 300), "C09")
+    canary(ctx)
+
+
+def plan_C10(ctx):
+    run_family(ctx, "xver", n_of(ctx, 80, 1500), perfile=n_of(ctx, 8, 20))
+    canary(ctx)
+
+
+def plan_C11(ctx):
+    run_family(ctx, "roundtrip", n_of(ctx, 150, 3000), perfile=n_of(ctx, 10, 30), seed_off=7)
+    run_family(ctx, "merge_obs", n_of(ctx, 150, 3000), perfile=20, seed_off=8)
+    canary(ctx)
+
+
+def plan_C12(ctx):
+    run_family(ctx, "faults_w", n_of(ctx, 6, 150), perfile=n_of(ctx, 1, 3))
+    require_cov(ctx, "wfault_fail", "wfault_close", "wfault_nil_close")
+
+
+def plan_C13(ctx):
+    run_family(ctx, "reuse", n_of(ctx, 200, 4000), perfile=n_of(ctx, 20, 40))
+    run_family(ctx, "dv_walk", n_of(ctx, 8, 100), perfile=2, seed_off=9)
+    canary(ctx)
+
+
+def plan_C14(ctx):
+    run_family(ctx, "pool_seq", n_of(ctx, 150, 3000), perfile=n_of(ctx, 15, 40), env_extra={"VERIF_INLINE": "1"})
+    run_family(ctx, "conc_build", n_of(ctx, 40, 600), perfile=n_of(ctx, 10, 20))
+    race_pass(ctx, "conc_build", n_of(ctx, 16, 200), "C14")
+    require_cov(ctx, "pooled_builds")
+
+
+def plan_C15(ctx):
+    run_family(ctx, "immut", n_of(ctx, 80, 1500), perfile=n_of(ctx, 8, 20))
+    canary(ctx)
+
+
+def plan_C16(ctx):
+    run_family(ctx, "merge_obs", n_of(ctx, 250, 5000), perfile=n_of(ctx, 20, 40), seed_off=10)
+    run_family(ctx, "build_obs", n_of(ctx, 100, 2000), perfile=20, seed_off=11)
+    run_family(ctx, "roundtrip", n_of(ctx, 60, 1000), perfile=10, seed_off=12)
+    canary(ctx)
+
+
+def plan_C17(ctx):
+    run_family(ctx, "assoc", n_of(ctx, 120, 2500), perfile=n_of(ctx, 10, 20))
+    canary(ctx)
+
+
+def plan_C18(ctx):
+    run_family(ctx, "match", n_of(ctx, 250, 5000), perfile=n_of(ctx, 20, 40))
+    canary(ctx)
+
+
+def plan_C19(ctx):
+    run_family(ctx, "fault_read", n_of(ctx, 150, 3000), perfile=n_of(ctx, 15, 40))
+
+
 PLANS = {
-    "C01": plan_C01,
-    "C05": plan_C05,
+    "C01": plan_C01, "C02": plan_C02, "C03": plan_C03, "C04": plan_C04, "C05": plan_C05, "C06": plan_C06,
+    "C07": plan_C07, "C08": plan_C08, "C09": plan_C09, "C10": plan_C10, "C11": plan_C11, "C12": plan_C12,
+    "C13": plan_C13, "C14": plan_C14, "C15": plan_C15, "C16": plan_C16, "C17": plan_C17, "C18": plan_C18,
+    "C19": plan_C19, "TMP": plan_tmp,
 }
 
-LEVELS = {
-    "C05": ("model_checking", "E1: every reachable iterator state of the bounded model; E2/E3: scenario = (postings, locations, exclusion, chunk size, flags, call sequence); distinct by content hash; non-trivial = at least one indexed term and two operations"),
-    "C01": ("model_checking", "scenario = (batches, operation list); distinct by content hash; non-trivial = at least one indexed term and at least two operations"),
-}
+RULE = ("scenario = (batches, operation list) executed on the real code; distinct by content hash; "
+        "non-trivial = at least one indexed term and at least two operations; every event of every "
+        "scenario is judged by TLC against Level A (IceData/IceAPI)")
+LEVELS = {p: ("model_checking", RULE) for p in PLANS}
 
 
 def replay(ctx, path):
@@ -62,11 +193,5 @@ def replay(ctx, path):
     return 1 if ctx.violations else 0
 
 
-def plan_tmp(ctx):
-    import os
-    fams = os.environ.get("FAMS", "iter_walk").split(",")
-    n = int(os.environ.get("N", "100"))
-    for f in fams:
-        run_family(ctx, f, n, perfile=int(os.environ.get("PF", "10")))
 
-PLANS["TMP"] = plan_tmp
+
